@@ -188,6 +188,7 @@ def gen_c11(rng, tier):
     sks = gen_sketches(rng, tier)
     rng.shuffle(sks)
     sks = sks[:(14 if tier == 'quick' else 120)]
+    nbig = 0
     for ci, (empty, ordered, sh, theta, es) in enumerate(sks):
         ordered = ordered or len(es) <= 1
         suitable = ordered and len(es) > 0 and not (len(es) == 1 and not (theta < MAX_THETA and not empty))
@@ -218,8 +219,12 @@ def gen_c11(rng, tier):
                         ops.append([4, SEED_HASH] + mut)
             for k in range(0, len(ops), 60):
                 cases.append(dict(id='tm%d_%d_%d' % (ci, ii, k), ops=ops[k:k + 60], tags=tags + ['corrupt'], expect={}))
-            for k, op in enumerate(big[:(2 if tier == 'quick' else 8)]):
-                cases.append(dict(id='tb%d_%d_%d' % (ci, ii, k), ops=[op], tags=tags + ['corrupt-count-stream'], expect={}))
+            # each of these stops the harness process (sanitizer allocation cap: the recorded known finding) and costs one restart of the run;
+            # vlib.run_impl restarts at most 25 times, so only a dozen of them are replayed per run
+            for k, op in enumerate(big[:2]):
+                if nbig < 12:
+                    nbig += 1
+                    cases.append(dict(id='tb%d_%d_%d' % (ci, ii, k), ops=[op], tags=tags + ['corrupt-count-stream'], expect={}))
     return cases + gen_short_images(rng, tier)
 
 def gen_short_images(rng, tier):
